@@ -67,6 +67,18 @@ Check C10_failure_value_irrelevant : forall (fe : list (nat * string)) o ms d j,
    fst (run (fault_points fe) o ms d) = bootstrap d) /\
   (forall fe', map fst fe' = map fst fe -> run (fault_points fe') o ms d = run (fault_points fe) o ms d).
 
+(* ... and there is no retry: the first failing execution (the smallest fault point other than the ignored
+   ALTER that is reached) is the LAST call the run makes; in particular a statement that keeps failing is
+   executed once *)
+Theorem C10_first_failure_ends_run : forall F o ms d j,
+  In j F -> j <> 1 -> (forall j', In j' F -> j' <> 1 -> j <= j') ->
+  j < i_n (snd (run F o ms d)) -> i_n (snd (run F o ms d)) = S j.
+Proof. exact first_failure_ends_run. Qed.
+Print Assumptions C10_first_failure_ends_run.
+Check C10_first_failure_ends_run : forall F o ms d j,
+  In j F -> j <> 1 -> (forall j', In j' F -> j' <> 1 -> j <= j') ->
+  j < i_n (snd (run F o ms d)) -> i_n (snd (run F o ms d)) = S j.
+
 (* the two statements outside the transaction are idempotent *)
 Theorem C10_bootstrap_idempotent : forall d,
   bootstrap (bootstrap d) = bootstrap d /\ sql_create_vt (bootstrap d) = bootstrap d /\ sql_alter_vt (bootstrap d) = EngErr.
@@ -106,3 +118,8 @@ Example C10_refusal_nonvacuous :
    Nat.ltb 5 (i_n (snd r)) = true /\ i_res (snd r) = Some (RErr DatabaseError) /\ fst r = mkDb (Some (mkVt true [])) ["CREATE TABLE t (obstacle)"]) /\
   i_res (snd (run (fault_points [(1, "duplicate column name: id")]) ex_o ex_ms (mkDb None []))) = Some ROk.
 Proof. vm_compute. repeat split. Qed.
+
+Example C10_no_retry_nonvacuous :
+  i_n (snd (run (fault_points [(6, "database is locked")]) ex_o ex_ms (mkDb None []))) = 7 /\
+  i_res (snd (run (fault_points [(6, "database is locked")]) ex_o ex_ms (mkDb None []))) = Some (RErr DatabaseError).
+Proof. vm_compute. split; reflexivity. Qed.
